@@ -141,6 +141,13 @@ def main():
     # facts-level obligations (sizes, guards, globals, asm operands)
     for msg in prop.get("fact_checks", lambda f, m: [])(facts, meta):
         broken.append("fact: " + msg)
+    # hand-modelled code must be the code the model was validated against (tools/shapes.py)
+    import shapes
+    tie = shapes.compare(facts, pid)
+    for msg in tie: broken.append("model tie: " + msg)
+    run.cov["obligations"] += 1
+    if not tie: run.cov["discharged"] += 1
+    run.cov["model_tie"] = {"functions_compared": len([n for n in facts.get("shapes", {}) if pid in shapes.props_for(n) and not shapes.WHOLE.match(n)]), "changed": tie}
     model = os.path.join(vlib.LEAN, ".lake", "build", "bin", "skinny_model")
     spec = os.path.join(vlib.LEAN, ".lake", "build", "bin", "skinny_spec")
     model_ok = os.path.exists(model) and os.path.exists(spec)
